@@ -137,7 +137,7 @@ def handle (op : String) (req : Json) : R Json := do
       ("appended", jList jWord (appended specBlocks))]
     let okB := headOkB endian spacing (fields.map (·.name))
     -- the Lean reader on the real header text (null: the text is outside the subset the reader handles)
-    let realMeta := if entitiesKnown realHead then jOpt jMeta (vtkParse realHead) else .null
+    let realMeta := if inReaderSubset realHead then jOpt jMeta (vtkParse realHead) else .null
     match vtkRender endian spacing img with
     | none =>
       pure (jObj [("rendered", .null), ("model", jObj [("raises", jBool true)]), ("spec", specSide),
